@@ -31,6 +31,8 @@ import (
 var (
 	tier   = flag.String("tier", "quick", "quick|thorough")
 	replay = flag.String("replay", "", "replay file (an extension vocabulary)")
+	onlyExt = flag.Int("ext", -1, "development aid: run only the extension vocabulary with this index")
+	keep    = flag.Bool("keep", false, "development aid: keep the extension tree")
 )
 
 var goEnv = []string{"GOFLAGS=-mod=mod", "GOPROXY=off", "GOSUMDB=off", "GOTOOLCHAIN=local"}
@@ -267,6 +269,11 @@ func genExtension(g *prng.R, idx int) extSpec {
 		if len(rng) == 1 {
 			rv = rng[0]
 		}
+		if i == 0 {
+			// the first property is always a natural-language one, so that every
+			// extension exercises the 'Map' spelling
+			rv = []interface{}{"xsd:string", "rdf:langString"}
+		}
 		m := map[string]interface{}{"id": "https://ext.example/ns#" + name, "type": typ, "name": name, "notes": "Generated extension property.",
 			"domain": map[string]interface{}{"type": "owl:Class", "unionOf": dom}, "range": map[string]interface{}{"type": "owl:Class", "unionOf": rv},
 			"isDefinedBy": "https://ext.example/ns#dfn-" + strings.ToLower(name), "url": "https://ext.example/ns#dfn-" + strings.ToLower(name)}
@@ -311,6 +318,9 @@ func main() {
 	runs, nExt := 3, 1
 	if *tier == "thorough" {
 		runs, nExt = 24, 10
+	}
+	if *onlyExt >= 0 {
+		runs, nExt = 1, *onlyExt+1
 	}
 	// ---- determinism ----
 	var first map[string]string
@@ -414,6 +424,9 @@ func main() {
 	}
 	// ---- extension vocabularies ----
 	for x := 0; x < nExt; x++ {
+		if *onlyExt >= 0 && x != *onlyExt {
+			continue
+		}
 		g := prng.New(r.SeedV, "c15.ext", x)
 		es := genExtension(g, x)
 		if *replay != "" && x == 0 {
@@ -483,7 +496,7 @@ func main() {
 		kf, _ := os.ReadFile(filepath.Join(root, "known_findings.json"))
 		os.WriteFile(filepath.Join(subRoot, "known_findings.json"), kf, 0644)
 		for _, sub := range []string{"c13", "c12", "c01"} {
-			out, err := sh(subRoot, []string{"VERIF_ROOT=" + subRoot, "VERIF_REPO=" + tree}, bin, sub, "-tier", "quick", "-specs", strings.Join(specs, ","))
+			out, err := sh(subRoot, []string{"VERIF_ROOT=" + subRoot, "VERIF_REPO=" + tree}, bin, sub, "-tier", "quick", "-specs", strings.Join(specs, ","), "-nomap-vocab", "VerifExt")
 			code := 0
 			if ee, ok := err.(*exec.ExitError); ok {
 				code = ee.ExitCode()
@@ -500,16 +513,27 @@ func main() {
 						sigs = append(sigs, strings.TrimSpace(strings.TrimPrefix(strings.TrimSpace(l), "signature:")))
 					}
 				}
-				feat := "extension tree fails " + strings.ToUpper(sub)
-				if len(sigs) > 0 {
-					feat += ": " + ruleOf(sigs[0])
+				// one C15 violation per distinct rule the sub-check reported
+				rules := map[string][]string{}
+				for _, sg := range sigs {
+					rules[ruleOf(sg)] = append(rules[ruleOf(sg)], sg)
 				}
-				r.Violate(verdict.Sig{Rule: "C15.extension-violates-" + strings.ToUpper(sub), Site: "astool", Feature: feat}, cas, map[string]interface{}{"signatures": sigs, "output": tail(out, 40)})
+				if len(rules) == 0 {
+					rules["unspecified"] = nil
+				}
+				for rule, sgs := range rules {
+					feat := "extension tree fails " + strings.ToUpper(sub) + ": " + rule
+					r.Violate(verdict.Sig{Rule: "C15.extension-violates-" + strings.ToUpper(sub), Site: "astool", Feature: feat}, cas, map[string]interface{}{"signatures": sgs, "output": tail(out, 40)})
+				}
 			default:
 				r.Inconclusive("sub-check " + sub + " on the extension tree was inconclusive: " + tail(out, 8))
 			}
 		}
 		r.NonTrivial(fmt.Sprintf("extension-%d-%s", x, string(b[:min(len(b), 4000)])))
+		if *keep {
+			fmt.Println("kept", tree, "specs", strings.Join(specs, ","))
+			continue
+		}
 		os.RemoveAll(tree)
 		os.Remove(bin)
 	}
